@@ -14,7 +14,7 @@ INFO = {
         "thorough": {"step": "complete", "buffer_len": "0..10 octets", "words_len": "0..8 words"},
     },
     "outside_bounds": ["buffers longer than the stated length (covered only by the step+loop induction argument)",
-                       "big-endian hosts (SYSTEM_ENDIANNESS_BIG branch of ufw_crc16_arc_u16 is not compiled)",
+                       "big-endian hosts as such (the SYSTEM_ENDIANNESS_BIG branch of ufw_crc16_arc_u16 is compiled and checked against the big-endian image in its own instance, on the little-endian model)",
                        "CHAR_BIT != 8"],
     "stubs": [],
     "assumptions": ["little-endian 8-bit-byte host configuration (the one the repository builds and tests)"],
@@ -30,6 +30,12 @@ def instances(tier):
         mk("c16_buffer", "C16/c16.c", U, {"MODE_BUFFER": None, "LEN": L},
            unwind={"ufw_crc16_arc": L + 2, "ref_step": 9, "ref_crc": L + 2}, default_unwind=10, no_models=True),
         mk("c16_words", "C16/c16.c", U, {"MODE_WORDS": None, "LEN": W},
+           unwind={"ufw_crc16_arc": 2 * W + 2, "ufw_crc16_arc_u16": W + 2, "ref_step": 9, "ref_crc": 2 * W + 2,
+                   "harness": W + 2}, default_unwind=10, no_models=True),
+        # the big-endian branch of the word variant (the build under test is little-endian; the branch is compiled
+        # with the other macro so that it is not dead code for the check)
+        mk("c16_words_bigendian_branch", "C16/c16.c", U, {"MODE_WORDS_BE": None, "LEN": W},
+           cflags=["-USYSTEM_ENDIANNESS_LITTLE", "-DSYSTEM_ENDIANNESS_BIG"],
            unwind={"ufw_crc16_arc": 2 * W + 2, "ufw_crc16_arc_u16": W + 2, "ref_step": 9, "ref_crc": 2 * W + 2,
                    "harness": W + 2}, default_unwind=10, no_models=True),
     ]
